@@ -341,6 +341,7 @@ func checkChecksumFn(c *core.Ctx, rule string, fn *ssa.Function) {
 	lps := loops(fn)
 	ob := c.Ob(rule, "CalcCheckSum", "adds every byte of its argument exactly once", fn.Pos())
 	var sumPhi *ssa.Phi
+	var sumInit int64 // the accumulator's initial value: 0, or 1 when the SOH is counted up front
 	if len(lps) != 1 {
 		ob.Fail("%d loops (expected one range loop over the argument)", len(lps))
 	} else {
@@ -369,13 +370,15 @@ func checkChecksumFn(c *core.Ctx, rule string, fn *ssa.Function) {
 				if !ok || phi == rangeIndexPhi(ia.Index) || len(phi.Edges) != 2 {
 					continue
 				}
-				if k, ok := an.ConstInt(phi.Edges[0]); !ok || k != 0 {
+				k0, ok := an.ConstInt(phi.Edges[0])
+				if !ok || (k0 != 0 && k0 != 1) {
 					continue
 				}
 				if bo, ok := phi.Edges[1].(*ssa.BinOp); ok && bo.Op == token.ADD && bo.X == ssa.Value(phi) {
 					if an.Render(bo.Y) == "int("+an.Render(ia)[1:]+")" {
 						okAcc = true
 						sumPhi = phi
+						sumInit = k0
 					}
 				}
 			}
@@ -402,19 +405,10 @@ func checkChecksumFn(c *core.Ctx, rule string, fn *ssa.Function) {
 			n++
 		}
 	}
-	sum := "?"
-	if sumPhi != nil {
-		sum = an.Render(sumPhi)
-	}
-	core1 := "((" + sum + " + 1) % 256)"
-	accepted := []string{
-		`[]byte(fmt.Sprintf("%03s", strconv.Itoa(` + core1 + `)))`,
-		`[]byte(fmt.Sprintf("%03d", ` + core1 + `))`,
-	}
 	okFmt := false
-	for _, a := range accepted {
-		if res == a {
-			okFmt = true
+	for _, p := range paths {
+		if p.Return != nil && len(p.Results) == 1 && !p.Loop {
+			okFmt = checksumFormat(p.Return.Results[0], sumPhi, sumInit)
 		}
 	}
 	if n != 1 {
@@ -424,6 +418,87 @@ func checkChecksumFn(c *core.Ctx, rule string, fn *ssa.Function) {
 	} else {
 		ob2.Fail("the result is %s; accepted forms are Sprintf(\"%%03s\", Itoa((sum+1)%%256)) and Sprintf(\"%%03d\", (sum+1)%%256) — the addend must be the one SOH that is not part of the argument, the modulus 256, the width three with zero padding", res)
 	}
+}
+
+// checksumFormat: v is []byte(Sprintf("%03s", decimal((sum+SOH) mod 256))) or []byte(Sprintf("%03d", (sum+SOH) mod 256)), where the
+// accumulator's initial value and the constant added after the loop together contribute exactly one SOH (1), the reduction is
+// % 256, & 255 or a conversion to byte, and decimal is Itoa / FormatInt(·,10) / FormatUint(·,10). Integer conversions in between are transparent.
+func checksumFormat(v ssa.Value, sumPhi *ssa.Phi, sumInit int64) bool {
+	if sumPhi == nil {
+		return false
+	}
+	if cv, ok := v.(*ssa.Convert); ok {
+		v = cv.X
+	}
+	call, ok := v.(*ssa.Call)
+	if !ok || !an.CalleeIs(&call.Call, "fmt", "Sprintf") || len(call.Call.Args) != 2 {
+		return false
+	}
+	format, ok := an.ConstString(call.Call.Args[0])
+	if !ok {
+		return false
+	}
+	elems, ok := an.SliceElems(call.Call.Args[1])
+	if !ok || len(elems) != 1 {
+		return false
+	}
+	arg := elems[0]
+	if mi, ok := arg.(*ssa.MakeInterface); ok {
+		arg = mi.X
+	}
+	stripConv := func(x ssa.Value) (ssa.Value, bool) { // strips integer conversions; reports whether one of them was to an 8-bit unsigned type
+		narrowed := false
+		for {
+			cv, ok := x.(*ssa.Convert)
+			if !ok {
+				return x, narrowed
+			}
+			if b, ok := cv.Type().Underlying().(*types.Basic); ok && b.Kind() == types.Uint8 {
+				narrowed = true
+			}
+			x = cv.X
+		}
+	}
+	reduced := func(x ssa.Value) bool { // (sum + k) reduced mod 256 with sumInit + k == 1
+		x, narrowed := stripConv(x)
+		if !narrowed {
+			bo, ok := x.(*ssa.BinOp)
+			if !ok {
+				return false
+			}
+			k, isK := an.ConstInt(bo.Y)
+			if !((bo.Op == token.REM && isK && k == 256) || (bo.Op == token.AND && isK && k == 255)) {
+				return false
+			}
+			x, _ = stripConv(bo.X)
+		}
+		add := int64(0)
+		if bo, ok := x.(*ssa.BinOp); ok && bo.Op == token.ADD {
+			if k, isK := an.ConstInt(bo.Y); isK {
+				add, x = k, bo.X
+			} else if k, isK := an.ConstInt(bo.X); isK {
+				add, x = k, bo.Y
+			}
+		}
+		return x == ssa.Value(sumPhi) && sumInit+add == 1
+	}
+	switch format {
+	case "%03d":
+		return reduced(arg)
+	case "%03s":
+		dec, ok := arg.(*ssa.Call)
+		if !ok {
+			return false
+		}
+		switch {
+		case an.CalleeIs(&dec.Call, "strconv", "Itoa"):
+			return reduced(dec.Call.Args[0])
+		case an.CalleeIs(&dec.Call, "strconv", "FormatInt"), an.CalleeIs(&dec.Call, "strconv", "FormatUint"):
+			base, ok := an.ConstInt(dec.Call.Args[1])
+			return ok && base == 10 && reduced(dec.Call.Args[0])
+		}
+	}
+	return false
 }
 
 // checkIntCodec (S4): Int.ToBytes is decimal Itoa of the value, NewInt populates.
